@@ -6,10 +6,17 @@
    the blocks they overlap in every entry the node is associated with.
    The base case of the global statement is proved: right after construction every block in use is justified by a
    service range or a listed node (Just_proofs.v).
-   Not proved (monitored on the implementation's traces at every idle point by the check): the
-   global statement over all histories -- it needs the world-level justification invariant;
-   recorded residues K-D21, K-TOMB. *)
-From NIPAM Require Import Sys Alloc_proofs Inv_proofs Pool_proofs Geom_proofs Just_proofs.
+   The global statement is proved as an invariant of histories (Just2_proofs.v): in every world reached by a history of
+   well-formed operations in which no node is deleted and no read-back after timed-out writes fails -- any schedule of workers
+   with stale work items, any failing or timing-out writes, crashes and restarts, relists, ClusterCIDR creation and deletion,
+   label changes, nodes marked as being deleted, pre-set pod CIDRs -- every block in use in any pool overlaps a configured
+   service range or a pod CIDR of an existing node.  The two hypotheses are exactly the recorded residues: with node deletion
+   the statement is false of the code (K-D21, K-TOMB, K-REPL); a failed read-back keeps the reservation of a write whose
+   outcome is unknown, which the property counts as a justification but the model's world does not record (K-AMB).
+   Not proved: the statement with node deletion restricted to the histories the residues do not cover (monitored on the
+   implementation's traces at every idle point by the check). *)
+From NIPAM Require Import Sys Alloc_proofs Inv_proofs Pool_proofs Geom_proofs World_proofs Path_proofs Just_proofs Just2_proofs.
+From Coq Require Import Lia.
 Open Scope N_scope.
 
 Theorem C04_partial_reserve_then_release_restores :
@@ -48,3 +55,50 @@ Theorem C04_partial_after_construction_everything_in_use_is_justified :
   forall e, In e (all_entries m) -> forall f pl, pool_of e f = Some pl -> forall b, In b (used pl) -> justified s1 s2 nodes b.
 Proof. exact construct_resurrects_nothing. Qed.
 Print Assumptions C04_partial_after_construction_everything_in_use_is_justified.
+
+(* ---------- the property over histories ---------- *)
+Theorem C04_every_used_block_is_justified_in_every_history_without_node_deletion :
+  forall po lab ops, Forall wf_op ops -> Forall c04_op ops ->
+  let w := run po lab init_world ops in
+  forall m, w_ctl w = Some m -> forall e, In e (all_entries m) -> forall f pl, pool_of e f = Some pl -> forall b, In b (used pl) ->
+    (exists s, In s (svc_list (w_svc w)) /\ overlap b s) \/
+    (exists a c cn, In a (w_nodes w) /\ In (PGood c cn) (an_cidrs a) /\ overlap b c).
+Proof. exact used_blocks_are_justified_in_every_history. Qed.
+Print Assumptions C04_every_used_block_is_justified_in_every_history_without_node_deletion.
+
+(* what one node work item can leave behind: either every block in use is justified as before, or the reservation of the
+   blocks cs was kept -- and then the re-read node shows them, or a write carrying them was applied, or the API server shows
+   them, or the read-back failed *)
+Theorem C04_node_work_item_keeps_only_what_it_wrote :
+  forall (J : cidr -> Prop) po lab svcs canp apisame held m cached reread outs m' r fx,
+  MapInv m -> KU m -> Forall wf_cidr svcs -> (forall n, cached = Some n -> wf_node n) ->
+  (forall s, In s svcs -> forall b, overlap b s -> J b) ->
+  (forall node c cn, cached = Some node -> reread <> None -> n_deleting node = false -> In (PGood c cn) (n_cidrs node) -> forall b, overlap b c -> J b) ->
+  sync_node po lab svcs canp apisame held m cached reread outs = (m', r, fx) -> JM J m ->
+  JM J m' \/
+  exists node cs, cached = Some node /\ n_cidrs node = [] /\ n_deleting node = false /\ cs <> [] /\
+                  JM (jany J cs) m' /\ kept_reason canp apisame (n_name node) cs reread outs fx.
+Proof. exact jm_sync_node. Qed.
+Print Assumptions C04_node_work_item_keeps_only_what_it_wrote.
+
+(* non-vacuity: a history of the theorem's kind with a rejected write (block given back), a timed-out write that was applied,
+   a restart and a ClusterCIDR deletion; at the end one block is in use, held by n2 *)
+Example C04_history_nonvacuous :
+  let po0 : parse_oracle := fun _ => Some [] in
+  let lab0 : label_oracle := fun k => [cl k] in
+  let ops := [UCreateCC (mkCCObj [99] (FOk (mkCidr V4 167772160 27)) FEmpty 4 (Some [107]) [] false 1 0 0);
+              Construct None None [UOk] []; StartInformers; ProcCC UOk;
+              UCreateNode [110;49] [] []; DeliverNode; ProcNode [PFail; PFail; PFail]; Tick;
+              UCreateNode [110;50] [] []; DeliverNode; ProcNode [PTimeoutApplied; PFail; PFail; POk];
+              Crash; Construct None None [UOk] []; StartInformers; ProcCC UOk] in
+  Forall wf_op ops /\ Forall c04_op ops /\
+  match w_ctl (run po0 lab0 init_world ops) with
+  | Some m => flat_map (fun e => match cc_v4 e with Some p => used p | None => [] end) (all_entries m) = [mkCidr V4 167772176 28]
+  | None => False
+  end.
+Proof.
+  cbv zeta. split; [|split; [|vm_compute; reflexivity]].
+  - repeat constructor; cbn; try (intros ? E; discriminate E);
+      try (unfold good_obj, good_field, good_range, wf_cidr; cbn; repeat split; try lia; try discriminate; intros [? _]; discriminate).
+  - repeat constructor; cbn; discriminate.
+Qed.
